@@ -128,6 +128,9 @@ def one(ctx, i, rep=None):
             if n['kind'] == 'Leaf' and n['val'] is not None:
                 uniq[0] += 1
                 n['val'] = (100 + uniq[0]) if uniq[0] % 2 else '"s%d"' % uniq[0]
+            if n['kind'] == 'Block' and n.get('tag'):
+                uniq[0] += 1
+                n['tag'] = '#u%d' % uniq[0]
     texts, spans = [], []
     for rt in roots:
         out, sp_ = [], {}
